@@ -309,6 +309,9 @@ func (update *Update) UnmarshalCBOR(data []byte) error {
 // - the accumulator includes the hash of the last item in the hash chain
 // - the hash chain is valid (each chain item has the correct hash of its parent).
 func (update *Update) Verify(pk *gabikeys.PublicKey) (*Accumulator, error) {
+	if update.SignedAccumulator == nil {
+		return nil, errors.New("update has no accumulator")
+	}
 	acc, err := update.SignedAccumulator.UnmarshalVerify(pk)
 	if err != nil {
 		return nil, err
@@ -420,7 +423,12 @@ func (el *EventList) compress() *compressedEventList {
 	return &c
 }
 
-func (el *EventList) uncompress(c *compressedEventList) {
+func (el *EventList) uncompress(c *compressedEventList) error {
+	for _, e := range c.E {
+		if e == nil {
+			return errors.New("event list contains an empty value")
+		}
+	}
 	if len(c.E) != 0 {
 		el.Events = make([]*Event, len(c.E))
 	}
@@ -445,6 +453,7 @@ func (el *EventList) uncompress(c *compressedEventList) {
 	// The indices and hashes of events that come from a compressed event are always valid
 	// since we just computed them ourselves
 	el.verified = true
+	return nil
 }
 
 func (el *EventList) MarshalJSON() ([]byte, error) {
@@ -457,8 +466,7 @@ func (el *EventList) UnmarshalJSON(bts []byte) error {
 	if err != nil {
 		return err
 	}
-	el.uncompress(&c)
-	return nil
+	return el.uncompress(&c)
 }
 
 func (el *EventList) MarshalCBOR() ([]byte, error) {
@@ -471,8 +479,7 @@ func (el *EventList) UnmarshalCBOR(bts []byte) error {
 	if err != nil {
 		return err
 	}
-	el.uncompress(&c)
-	return nil
+	return el.uncompress(&c)
 }
 
 func (el *EventList) Verify(acc *Accumulator) error {
@@ -483,6 +490,13 @@ func (el *EventList) Verify(acc *Accumulator) error {
 	// early returns
 	if count == 0 {
 		return nil
+	}
+	// Revoked values are positive integers. (The hash of an event is taken over the bytes of the
+	// value, which do not show its sign: a chain with a negated value would hash the same.)
+	for _, event := range events {
+		if event == nil || event.E == nil || event.E.Sign() <= 0 {
+			return errors.New("event chain contains an invalid event")
+		}
 	}
 	// The memoised verdict below only covers the internal consistency of the chain (indices and
 	// parent hashes); whether the chain ends in the event signed into this particular accumulator
